@@ -614,6 +614,19 @@ pub fn gen_case(seed: u64, hist: u64) -> SchedCase {
         // no rotation at all: every record lives in one file, power loss can only tear its tail
         h.cfg.max_records = None;
         h.cfg.max_size = None;
+        // one entry of 70 kB in a third of these: an unsynced write longer than 64 KiB (long zero-filled tails)
+        if r.chance(1, 3) {
+            for st in h.steps.iter_mut() {
+                if let crate::store::Op::Append(es) = &mut st.op {
+                    if let Some(e) = es.first_mut() {
+                        while e.1.len() < 70_000 {
+                            e.1.push('B');
+                        }
+                        break;
+                    }
+                }
+            }
+        }
     }
     let sched = sched::gen_sched(&mut r, h.steps.len());
     // fault + crash: one failing fdatasync, two consecutive ones, or a short write, in 2 of 5 histories
@@ -625,8 +638,10 @@ pub fn gen_case(seed: u64, hist: u64) -> SchedCase {
     } else if w < 92 {
         let n = r.below(20) as u32;
         vec![FaultSpec { role: Role::Worker, kind: Sk::Sync, nth: n, action: "eio".into() }, FaultSpec { role: Role::Worker, kind: Sk::Sync, nth: n + 1, action: "eio".into() }]
-    } else {
+    } else if w < 96 {
         vec![FaultSpec { role: Role::Worker, kind: Sk::Write, nth: r.below(12) as u32, action: format!("short:{}", r.range(1, 25)) }]
+    } else {
+        vec![FaultSpec { role: Role::Caller, kind: Sk::Create, nth: r.range(1, 6) as u32, action: "eio".into() }]
     };
     SchedCase { hist: h, sched, faults, reader_steps: vec![], gate_acks: r.chance(1, 2) }
 }
